@@ -559,6 +559,15 @@ start:
 				s.setOuter(v.Chan, NeverNil)
 				s.set(v, ValueNilness{MaybeNil, MaybeNil})
 			case *ir.MakeInterface:
+				if typeparams.IsTypeParam(v.X.Type()) && !typeutil.All(v.X.Type(), func(term *types.Term) bool {
+					return !types.IsInterface(term.Type())
+				}) {
+					// The type parameter may be instantiated with an
+					// interface type, in which case no new interface
+					// value is made and a nil interface stays nil.
+					s.set(v, ValueNilness{MaybeNil, MaybeNil})
+					break
+				}
 				s.set(v, ValueNilness{
 					Inner: s.get(v.X).Outer,
 					Outer: NeverNil,
